@@ -32,14 +32,12 @@ impl Engine<'_> {
         let count = self.graphics.loop_counter as usize;
         self.graphics.loop_counter = 1;
         // In backward compatibility mode, don't flip points after IUP has
-        // been done.
+        // been done. FreeType bails out before popping anything, so the
+        // point arguments stay on the stack (`goto Fail` in Ins_FLIPPT).
         if self.graphics.backward_compatibility
             && self.graphics.did_iup_x
             && self.graphics.did_iup_y
         {
-            for _ in 0..count {
-                self.value_stack.pop()?;
-            }
             return Ok(());
         }
         let zone = self.graphics.zone_mut(ZonePointer::Glyph);
@@ -930,6 +928,25 @@ mod tests {
             // All points are still off-curve
             assert!(!flags[i].is_on_curve());
         }
+    }
+
+    /// A FLIPPT that is blocked by backward compat + IUP state leaves its
+    /// point arguments on the stack (as FreeType does) and resets the loop
+    /// counter.
+    #[test]
+    fn blocked_flip_point_keeps_arguments() {
+        let mut mock = MockEngine::new();
+        let mut engine = mock.engine();
+        engine.value_stack.push(2).unwrap();
+        engine.op_sloop().unwrap();
+        engine.value_stack.push(3).unwrap();
+        engine.value_stack.push(5).unwrap();
+        engine.graphics.backward_compatibility = true;
+        engine.graphics.did_iup_x = true;
+        engine.graphics.did_iup_y = true;
+        engine.op_flippt().unwrap();
+        assert_eq!(engine.value_stack.values(), &[3, 5]);
+        assert_eq!(engine.graphics.loop_counter, 1);
     }
 
     #[test]
